@@ -228,6 +228,18 @@ def oracle(script: dict, run: Any) -> List[Violation]:
         want_rt = None if not attempt else ["int", str(sum(1 for a in m["attempts"][:attempt] if a["out"][0] == "exc"))]
         if want_rt == ["int", "0"]:
             want_rt = None
+        # X-Taskiq-requeue: number of requeues this message went through before this delivery (as str); the requeueing
+        # execution itself sees n+1 after its function body (Context.requeue() writes it into its own message)
+        n_rq = sum(1 for a in m["attempts"][:attempt] if a["out"][0] == "requeue")
+        this_rq = attempt < len(m["attempts"]) and m["attempts"][attempt]["out"][0] == "requeue" and fe is not None
+        for where, labels in obs:
+            late = where.startswith(("on_error", "post_execute", "post_save", "stored"))
+            n = n_rq + (1 if (this_rq and late) else 0)
+            want_q = None if n == 0 else ["str", str(n)]
+            if labels.get("X-Taskiq-requeue") != want_q:
+                out.append(Violation("C09/requeue-label-leaked-into-delivery", f"message {k}, {how}: {where} saw X-Taskiq-requeue={labels.get('X-Taskiq-requeue')}, "
+                                     f"this delivery's own message has {want_q}", k=k))
+                break
         for where, labels in obs:
             if labels.get("_retries") != want_rt:
                 out.append(Violation("C09/retry-label-leaked-into-delivery", f"message {k}, {how}: {where} saw _retries={labels.get('_retries')}, this delivery was sent with {want_rt}", k=k))
